@@ -6,6 +6,8 @@
 //	    the link endpoint and Stack.GetLinkAddress answers afterwards.
 //	(b) cache.go: histories on the real linkAddrCache through the overlay-added constructor.
 //	(c) scen.go (thorough tier): UDP write / TCP connect to an unresolved next hop, real constants.
+//	(d) ndp.go: IPv6 neighbour solicitations / advertisements injected into a fresh real stack, and
+//	    the stack's own solicitations (LinkAddressRequest directly, via GetLinkAddress, via a UDP write).
 package main
 
 import (
@@ -29,12 +31,19 @@ func main() {
 	nov := flag.Int("overflow", 2, "number of ring-overflow histories")
 	nt := flag.Int("timers", 60, "number of cache histories with the real resolver timers")
 	conc := flag.Int("conc", 32, "cache histories run concurrently")
+	nnd := flag.Int("ndp", 250, "number of random neighbour discovery packet cases (after the lattice); 0 = no NDP cases")
+	flag.BoolVar(&ndpSN, "ndpsn", false, "also generate inputs of finding C12-ndp-solicited-node-not-joined")
+	flag.BoolVar(&ndpMC, "ndpmc", false, "also generate inputs of finding C12-ndp-multicast-target-answered")
+	flag.BoolVar(&ndpOpt, "ndpopt", false, "also generate inputs of finding C12-ndp-lladdr-option-ignored")
 	nsc := flag.Int("scen", 0, "rounds of real-constant UDP/TCP scenarios (19 scenarios, about 4 s per round)")
 	flag.Parse()
 	out = bufio.NewWriterSize(os.Stdout, 1<<20)
 	defer out.Flush()
 	r := gen.New(*seed)
 	runArp(r, *n)
+	if *nnd > 0 {
+		runNdp(gen.New(*seed^0x6e6470), *nnd)
+	}
 	runCache(r, *nh, *nov, *nt, *conc)
 	for i := 0; i < *nsc; i++ {
 		runScens(1)
